@@ -1732,6 +1732,109 @@ def _vpk_content(tr: Tr, cls, dict_attr: str, side: dict) -> list[str]:
     return out
 
 
+# ------------------------------------------------------------------------------------------------ the container's reader
+def _lin(e):
+    """Integer-linear expression over self.offset / self.arch_len -> {'offset': n, 'arch_len': n, 'const': n}, else None."""
+    if isinstance(e, ast.Constant) and isinstance(e.value, int) and not isinstance(e.value, bool):
+        return {'offset': 0, 'arch_len': 0, 'const': e.value}
+    if isinstance(e, ast.Attribute) and _name(e.value) == 'self' and e.attr in ('offset', 'arch_len'):
+        return {'offset': int(e.attr == 'offset'), 'arch_len': int(e.attr == 'arch_len'), 'const': 0}
+    if isinstance(e, ast.UnaryOp) and isinstance(e.op, (ast.USub, ast.UAdd)):
+        v = _lin(e.operand)
+        return None if v is None else ({k: -x for k, x in v.items()} if isinstance(e.op, ast.USub) else v)
+    if isinstance(e, ast.BinOp) and isinstance(e.op, (ast.Add, ast.Sub)):
+        a, b = _lin(e.left), _lin(e.right)
+        if a is None or b is None:
+            return None
+        sg = 1 if isinstance(e.op, ast.Add) else -1
+        return {k: a[k] + sg * b[k] for k in a}
+    return None
+
+
+def _z(n: int) -> str:
+    return f'({n})%Z' if n < 0 else f'{n}%Z'
+
+
+def _vpk_reader(side: dict) -> list[str]:
+    """vpk.py FileInfo.read() -> rexpr (rocq/SM/FsChainRead.v): the preload, slices of the directory block / of a numbered
+    archive with the integer displacements found in the source, the tests on arch_len / arch_index.  Fail-closed."""
+    import copy
+    tree = canonical_module(ast.parse(src_text('vpk.py')))
+    tr = Tr(tree, 'vpk.py')
+    cls = tr.classes.get('FileInfo')
+    if cls is None:
+        tr.err(tree, 'vpk.py: FileInfo not found')
+    tr.cls = cls
+    fn0 = tr.method(cls, 'read')
+    if fn0.decorator_list or _params(fn0):
+        tr.err(fn0, 'FileInfo.read: unexpected signature')
+    fn = normalise(tr, cls, fn0)
+    ARCH_PATH = 'os.path.join(self.vpk.folder, get_arch_filename(self.vpk.file_prefix, self.arch_index))'
+
+    def rexpr(e, reader):
+        if isinstance(e, ast.Attribute) and e.attr == 'start_data' and _name(e.value) == 'self':
+            return 'RPre'
+        if isinstance(e, ast.BinOp) and isinstance(e.op, ast.Add):
+            return f'(RCat {rexpr(e.left, reader)} {rexpr(e.right, reader)})'
+        if isinstance(e, ast.Subscript) and _dotted(e.value) == 'self.vpk.footer_data' and isinstance(e.slice, ast.Slice) \
+                and e.slice.step is None and e.slice.lower is not None and e.slice.upper is not None:
+            lo, hi = _lin(e.slice.lower), _lin(e.slice.upper)
+            if lo and hi and (lo['offset'], lo['arch_len']) == (1, 0) and (hi['offset'], hi['arch_len']) == (1, 1):
+                return f'(RSlice true {_z(lo["const"])} {_z(hi["const"])})'
+            tr.err(e, f'FileInfo.read: unrecognised slice bounds {ast.unparse(e.slice)[:60]}')
+        if isinstance(e, ast.Call) and isinstance(e.func, ast.Attribute) and e.func.attr == 'read' and reader is not None \
+                and _name(e.func.value) == reader[0] and len(e.args) == 1 and not e.keywords:
+            if reader[1] is None:
+                tr.err(e, 'FileInfo.read: the archive is read without a seek to the offset')
+            ln = _lin(e.args[0])
+            if ln and (ln['offset'], ln['arch_len']) == (0, 1):
+                return f'(RSlice false {_z(reader[1])} {_z(reader[1] + ln["const"])})'
+            tr.err(e, f'FileInfo.read: unrecognised length {ast.unparse(e.args[0])[:60]}')
+        tr.err(e, f'FileInfo.read: unrecognised expression {ast.unparse(e)[:80]}')
+
+    def stmts(body, env, reader):
+        body = [st for st in body if not _is_doc(st) and not isinstance(st, ast.Pass)]
+        if not body:
+            tr.err(fn, 'FileInfo.read: a path does not return')
+        st, rest = body[0], body[1:]
+        sub = lambda x: _Subst(env).visit(copy.deepcopy(x))
+        if isinstance(st, ast.Return) and st.value is not None:
+            return rexpr(sub(st.value), reader)
+        if isinstance(st, ast.Assign) and len(st.targets) == 1 and isinstance(st.targets[0], ast.Name) and _pure_or_archname(st.value):
+            return stmts(rest, {**env, st.targets[0].id: sub(st.value)}, reader)
+        if isinstance(st, ast.If):
+            a = stmts(list(st.body) + rest, env, reader)
+            b = stmts(list(st.orelse) + rest, env, reader)
+            return _ctest(tr, sub(st.test), 'self', a, b).replace('(CIf', '(RIf')
+        if isinstance(st, ast.Assign) and len(st.targets) == 1 and isinstance(st.targets[0], ast.Name) and reader is not None \
+                and isinstance(st.value, ast.Call) and isinstance(st.value.func, ast.Attribute) and st.value.func.attr == 'read' \
+                and _name(st.value.func.value) == reader[0]:
+            return stmts(rest, {**env, st.targets[0].id: sub(st.value)}, reader)       # tail = data.read(n): used where it is named
+        if isinstance(st, ast.With) and len(st.items) == 1 and isinstance(st.items[0].optional_vars, ast.Name) and reader is None:
+            op = sub(st.items[0].context_expr)
+            mode = None
+            if isinstance(op, ast.Call) and _name(op.func) == 'open' and op.args:
+                mode = op.args[1] if len(op.args) > 1 else next((k.value for k in op.keywords if k.arg == 'mode'), None)
+            if not (mode is not None and _is_const(mode, 'rb') and ast.unparse(op.args[0]) == ARCH_PATH):
+                tr.err(st, f'FileInfo.read: does not open the numbered archive of the file in binary mode: {ast.unparse(op)[:100]}')
+            return stmts(list(st.body) + rest, env, (st.items[0].optional_vars.id, None))
+        if isinstance(st, ast.Expr) and isinstance(st.value, ast.Call) and isinstance(st.value.func, ast.Attribute) and reader is not None \
+                and st.value.func.attr == 'seek' and _name(st.value.func.value) == reader[0] and len(st.value.args) == 1 and not st.value.keywords:
+            pos = _lin(sub(st.value.args[0]))
+            if not pos or (pos['offset'], pos['arch_len']) != (1, 0) or reader[1] is not None:
+                tr.err(st, f'FileInfo.read: unrecognised seek {ast.unparse(st.value)[:60]}')
+            return stmts(rest, env, (reader[0], pos['const']))
+        tr.err(st, f'FileInfo.read: unrecognised statement {ast.unparse(st)[:80]}')
+
+    def _pure_or_archname(v):
+        return all(not isinstance(n, ast.Call) or _dotted(n.func) in PURE_FUNCS | {'get_arch_filename'} or
+                   (isinstance(n.func, ast.Attribute) and n.func.attr in PURE_METHODS) for n in ast.walk(v))
+
+    e = stmts(_body(fn), {}, None)
+    side['vpk_reader'] = e
+    return [f'Definition vpk_reader : rexpr := {e}.']
+
+
 def _raw(tr: Tr, side: dict) -> list[str]:
     """RawFileSystem: which normalisation of the name / folder reaches `self._resolve_path(...)` in each entry point
     (the directory itself is the OS's business: os.path.isfile / open / os.walk on the resolved path)."""
@@ -1808,7 +1911,7 @@ def translate() -> tuple[str, dict]:
     tr = Tr(tree, 'filesys.py')
     side: dict = {'backends': {}}
     lines = ['(* generated by translate/c19_walk.py from src/srctools/filesys.py - do not edit *)',
-             'From Coq Require Import List NArith.', 'From SV Require Import SM.FsChain SM.FsChainForms.', 'Import ListNotations.', '']
+             'From Coq Require Import List NArith ZArith.', 'From SV Require Import SM.FsChain SM.FsChainForms SM.FsChainRead.', 'Import ListNotations.', '']
     for cname, dattr in DICTS.items():
         cls = tr.classes.get(cname)
         if cls is None:
@@ -1817,17 +1920,20 @@ def translate() -> tuple[str, dict]:
         for m in _methods(cls).values():
             if m.name in LOOKUP_METHODS and m.decorator_list:
                 tr.err(m, f'{cname}.{m.name} is decorated')
-        store, store_base = _store_ops(tr, cls, dattr)
-        get = _key_uses(tr, tr.method(cls, '_get_file'), dattr, 'name')
-        ex = _key_uses(tr, tr.method(cls, '_file_exists'), dattr, 'name')
-        op = _key_uses(tr, tr.method(cls, 'open_bin'), dattr, 'name')
-        if 'self.open_bin(name)' in ast.unparse(tr.method(cls, 'open_str')):
-            ops_str = op      # delegates to open_bin
-        else:
-            ops_str = _key_uses(tr, tr.method(cls, 'open_str'), dattr, 'name')
-        if ops_str != op:
-            tr.err(cls, f'{cname}: open_str and open_bin normalise differently: {ops_str} vs {op}')
-        wf, subj, sops, line, wsrc = _walk(tr, cls, dattr)
+        try:
+            store, store_base = _store_ops(tr, cls, dattr)
+            get = _key_uses(tr, tr.method(cls, '_get_file'), dattr, 'name')
+            ex = _key_uses(tr, tr.method(cls, '_file_exists'), dattr, 'name')
+            op = _key_uses(tr, tr.method(cls, 'open_bin'), dattr, 'name')
+            if 'self.open_bin(name)' in ast.unparse(tr.method(cls, 'open_str')):
+                ops_str = op      # delegates to open_bin
+            else:
+                ops_str = _key_uses(tr, tr.method(cls, 'open_str'), dattr, 'name')
+            if ops_str != op:
+                tr.err(cls, f'{cname}: open_str and open_bin normalise differently: {ops_str} vs {op}')
+            wf, subj, sops, line, wsrc = _walk(tr, cls, dattr)
+        except TranslateError as e:
+            raise TranslateError(str(e) if cname in str(e) else f'{e} [while translating {cname}]') from None
         lines.append(f'Definition {CFG[cname]} : backend := {{|')
         lines.append(f'  b_store := {_coq_ops(store)}; b_get := {_coq_ops(get)}; b_exists := {_coq_ops(ex)}; b_open := {_coq_ops(op)};')
         lines.append(f'  b_wsrc := {wsrc}; b_wfolder := {_coq_ops(wf)}; b_wsubj := {subj}; b_wsubj_ops := {_coq_ops(sops)} |}}.')
@@ -1837,7 +1943,11 @@ def translate() -> tuple[str, dict]:
     lines.append('')
     tr.cls = tr.classes['VPKFileSystem']
     lines += _vpk_content(tr, tr.cls, DICTS['VPKFileSystem'], side)
-    lines += _raw(tr, side)
+    lines += _vpk_reader(side)
+    try:
+        lines += _raw(tr, side)
+    except TranslateError as e:
+        raise TranslateError(str(e) if 'RawFileSystem' in str(e) else f'{e} [while translating RawFileSystem]') from None
     for m in _methods(tr.classes.get('FileSystemChain') or tr.err(tree, 'FileSystemChain not found')).values():
         if m.name in LOOKUP_METHODS and m.decorator_list:
             tr.err(m, f'FileSystemChain.{m.name} is decorated')
